@@ -16,7 +16,11 @@ from harness.common import Run
 from harness.tlc import make_cfg, run_tlc
 
 ALPHA = {97, 32, 34, 39, 38, 60, 91, 93, 233}  # a space " ' & < [ ] e-acute
-EXTRA = ["x y", 'say "hi"', "it's", 'both \' and "', "a&b", "<tag>", "[1]", "été", "中文", "a=b", "a/b", '""', "'", '"', "\U0001F600", "a" * 40 + '"']
+EXTRA = ["x y", 'say "hi"', "it's", 'both \' and "', "a&b", "<tag>", "[1]", "été", "中文", "a=b", "a/b", '""', "'", '"', "\U0001F600", "a" * 40 + '"',
+         "0", "1", "2024", "x' or '1'='1"]     # a name made of digits is a name, not a position; a name is never query syntax
+
+
+STYLE_OF: dict = {}     # table style name -> the table it was given to
 
 
 def entry_points():
@@ -60,6 +64,14 @@ def entry_points():
     eps["get_link(name=)"] = (lambda doc, n: para(doc).append(Link("http://example.org/", name=n, text="l")), lambda doc, n: [doc.body.get_link(name=n)], lambda e: e.name)
     eps["get_variable_set(name)"] = (lambda doc, n: para(doc).append(VarSet(n, value=1)), lambda doc, n: [doc.body.get_variable_set(n)], lambda e: e.name)
     eps["get_user_defined(name)"] = (lambda doc, n: para(doc).append(UserDefined(n, value=1)), lambda doc, n: [doc.body.get_user_defined(n)], lambda e: e.name)
+    def styled_table_store(doc, n):
+        k = len(STYLE_OF)
+        sname = f"verif_ts{k}"
+        doc.insert_style(Style("table", name=sname), automatic=True)
+        doc.body.append(Table(n, style=sname))
+        STYLE_OF[sname] = n.strip()
+
+    eps["Document.get_table_style(table name)"] = (styled_table_store, lambda doc, n: [doc.get_table_style(n)], lambda e: STYLE_OF.get(e.name, "?"))
     eps["manifest.get_media_type(path)"] = (lambda doc, n: doc.manifest.add_full_path("Pictures/" + n, "image/x-" + str(abs(hash(n)) % 999)), None, None)
     return eps
 
@@ -104,6 +116,21 @@ def check_name(run, name: str, eps) -> None:
         run.klass(label, cls)
         if lookup is None:  # manifest
             try:
+                # the other operations on an entry use another lookup: change the type of a decoy, remove another decoy,
+                # add the path again - the entry itself, the root entry and the remaining decoys must be what they were
+                root_before = doc.manifest.get_media_type("/")
+                for j, d in enumerate(stored_ok[:3]):
+                    if j == 0:
+                        doc.manifest.set_media_type("Pictures/" + d, "image/x-changed")
+                    elif j == 1:
+                        doc.manifest.del_full_path("Pictures/" + d)
+                    else:
+                        doc.manifest.add_full_path("Pictures/" + d, "image/x-" + str(abs(hash(d)) % 999))
+                if doc.manifest.get_media_type("/") != root_before:
+                    run.violation(f"wrong-object|{label}|root-entry-changed", {"kind": "wrong", "name": name, "decoys": stored_ok})
+                if len(stored_ok) > 1 and doc.manifest.get_media_type("Pictures/" + stored_ok[1]) is not None:
+                    run.violation(f"wrong-object|{label}|deleted-entry-still-there", {"kind": "wrong", "name": name, "decoy": stored_ok[1]})
+                doc.manifest.set_media_type("Pictures/" + name, "image/x-" + str(abs(hash(name)) % 999))
                 got = doc.manifest.get_media_type("Pictures/" + name)
                 want = "image/x-" + str(abs(hash(name)) % 999)
                 if got != want:
